@@ -1,8 +1,10 @@
 (* C05 driver.  Case line (see harness/src/bin/c05.rs):
-     err side=<srv|cli> drv=<pce|full> derr=<-|ccs|c2s> loss=<-|x<code>|t|i> k=<n> serr=<e1,..> sched=<D|Si>,...
+     err side=<srv|cli> drv=<pce|full> np=<1|2> derr=<-|ccs|c2s|cms|cid> loss=<-|x<code>|t|i> closing=<-|goaway|shutdown>
+         k=<n> serr=<kind,..> sched=<D|Si>,...
    prints  <model result> | <spec result>
-   The harness facts encoded here (which poll_connection_error calls a driver poll of each shape makes,
-   in which turn the driver detects an error of its own) are checked by the correspondence run itself. *)
+   The harness facts encoded here (which poll_connection_error calls a driver poll of each shape makes, in which
+   turn the driver detects an error of its own, which error each kind of stream call raises, which later calls a
+   handle still has) are checked by the correspondence run itself. *)
 let kv ws = List.map (fun w -> match String.index_opt w '=' with
   | Some i -> (String.sub w 0 i, String.sub w (i+1) (String.length w - i - 1))
   | None -> failwith ("bad word " ^ w)) ws
@@ -12,11 +14,15 @@ let loss_err s = match s with
   | "t" -> Some (Quic QTimeout)
   | "i" -> Some (Quic QInternal)
   | x -> Some (Quic (QAppClose (n_of_string (String.sub x 1 (String.length x - 1)))))
+let lost loss = match loss with Some e -> e | None -> failwith "this kind needs loss"
+(* the error a scheduled stream call raises *)
 let stream_err loss = function
-  | "fu" -> Internal h3_FRAME_UNEXPECTED
-  | "fe" -> Internal h3_FRAME_ERROR
+  | "fu" | "tfu" | "xfu" -> Internal h3_FRAME_UNEXPECTED
+  | "fe" | "ue" -> Internal h3_FRAME_ERROR
   | "se" -> Internal h3_SETTINGS_ERROR
-  | "l" -> (match loss with Some e -> e | None -> failwith "serr=l without loss")
+  | "qp" -> Internal qPACK_DECOMPRESSION_FAILED
+  | "dr" -> Internal h3_NO_ERROR
+  | "l" | "wd" | "wt" | "wf" | "wr" | "xl" | "xw" | "rq" -> lost loss
   | s -> failwith ("bad serr " ^ s)
 let show_cerr = function
   | CLocal c -> "c:" ^ string_of_n c ^ ":Local"
@@ -34,41 +40,63 @@ let handle ws = match ws with
   | "err" :: rest ->
       let p = kv rest in
       let server = get "side" p = "srv" and full = get "drv" p = "full" in
+      let np = int_of_string (get "np" p) in
+      let closing = get "closing" p in
       let loss = loss_err (get "loss" p) in
       let k = int_of_string (get "k" p) in
-      let errs = List.map (stream_err loss) (String.split_on_char ',' (get "serr" p)) in
+      let kinds = String.split_on_char ',' (get "serr" p) in
+      let errs = List.map (stream_err loss) kinds in
       let sched = let s = get "sched" p in if s = "-" then [] else
         List.map (fun t -> if t = "D" then O else nat_of_int (int_of_string (String.sub t 1 (String.length t - 1))))
           (String.split_on_char ',' s) in
-      (* the driver's own error: the transport loss wins over a control-stream violation (poll_accept_recv
-         runs before the control stream is read) *)
+      (* the driver's own error and the turn in which it stores it: the transport loss wins over a control-stream
+         violation (poll_accept_recv runs before the control stream is read) *)
       let own = if not full then None else match loss with
-        | Some e -> Some e
+        | Some e -> Some (e, 7, [CallPCE])
         | None -> (match get "derr" p with
             | "-" -> None
-            | "ccs" -> Some (Internal h3_CLOSED_CRITICAL_STREAM)
-            | "c2s" -> Some (Internal h3_FRAME_UNEXPECTED)
+            | "ccs" -> Some (Internal h3_CLOSED_CRITICAL_STREAM, 7, [CallPCE])
+            | "c2s" -> Some (Internal h3_FRAME_UNEXPECTED, 7, [CallPCE])
+            | "cms" -> Some (Internal h3_MISSING_SETTINGS, 7, [CallPCE])
+            | "cid" -> Some (Internal h3_ID_ERROR, 13, [CallPCE; CallPCE; CallPCE])
             | s -> failwith ("bad derr " ^ s)) in
       let setup = if server then Some ([CallPCE; CallPCE], false)
-                  else if full then Some ([CallPCE; CallPCE; CallPCE; CallPCE], true) else None in
+                  else if full || closing = "goaway" then Some ([CallPCE; CallPCE; CallPCE; CallPCE], true) else None in
       let p1 = if not full then ([], true) else match own with
         | None -> ([CallPCE; CallPCE], true)
-        | Some e -> ([CallPCE; CallHandle e], true) in
-      let errs2 = List.map (fun _ -> match loss with Some e -> e | None -> Quic (QAppClose (n_of_int 999))) errs in
-      let r = run_case gen_cfg (nat_of_int k) setup p1 errs sched p1 errs2 errs2 in
-      let m = Printf.sprintf "ok d1=%s woken=%d s1=%s d2=%s s2=%s s3=%s d3=%s close=%s"
-        (show_dev r.r_d1) (if r.r_woken then 1 else 0)
-        (String.concat "," (List.map show_srep r.r_s1)) (show_dev r.r_d2)
-        (String.concat "," (List.map show_srep r.r_s2)) (String.concat "," (List.map show_srep r.r_s3))
+        | Some (e, _, pre) -> (pre @ [CallHandle e], true) in
+      (* later calls: a read, then a write, on the lost transport *)
+      let l2 = match loss with Some e -> e | None -> Quic (QAppClose (n_of_int 999)) in
+      let errs2 = List.map (fun kd -> match kd with
+        | "dr" -> None
+        | "qp" when server -> None
+        | "ue" -> Some (Internal h3_FRAME_ERROR)
+        | _ -> Some l2) kinds in
+      let errs3 = List.map (fun kd -> match kd with
+        | "dr" | "rq" -> None
+        | "qp" when server -> None
+        | _ -> Some l2) kinds in
+      (* shutdown(0) on the lost transport; a client that already sent its GOAWAY(0) returns Ok without writing *)
+      let e4 = if (not server) && closing = "shutdown" then None else Some l2 in
+      let r = run_case gen_cfg (nat_of_int k) setup (nat_of_int np) p1 errs sched p1 errs2 errs3 e4 in
+      let opt l os = String.concat "," (List.map2 (fun x o -> match o with None -> "-" | Some _ -> show_srep x) l os) in
+      let s1 = String.concat "," (List.map2 (fun x kd -> if kd = "dr" then "-" else show_srep x) r.r_s1 kinds) in
+      let ones = String.concat "," (List.map (fun _ -> "1") kinds) in
+      let m = Printf.sprintf "ok keys=%s d1=%s woken=%d s1=%s d2=%s s2=%s s3=%s d4=%s d3=%s close=%s"
+        ones (show_dev r.r_d1) (if r.r_woken then 1 else 0) s1 (show_dev r.r_d2)
+        (opt r.r_s2 errs2) (opt r.r_s3 errs3)
+        (match e4 with None -> "ok" | Some _ -> show_dev r.r_d4)
         (show_dev r.r_d3) (show_closes r.r_close) in
-      (* specification: the first raise in schedule order is the outcome; the driver raises in its 7th turn *)
-      let derr = match own with Some e -> Some (nat_of_int 7, e) | None -> None in
+      (* specification: the first raise in schedule order is the outcome *)
+      let derr = match own with Some (e, t, _) -> Some (nat_of_int t, e) | None -> None in
       let s = (match spec_case (nat_of_int k) errs derr sched with
         | None -> "none"
         | Some e ->
             let x = show_cerr (spec_report e) in
-            let xs = String.concat "," (List.map (fun _ -> x) errs) in
-            Printf.sprintf "ok d1=* woken=* s1=%s d2=%s s2=%s s3=%s d3=%s close=%s" xs x xs xs x
+            let xs1 = String.concat "," (List.map (fun kd -> if kd = "dr" then "-" else x) kinds) in
+            let xo l = String.concat "," (List.map (fun o -> match o with None -> "-" | Some _ -> x) l) in
+            Printf.sprintf "ok keys=%s d1=* woken=* s1=%s d2=%s s2=%s s3=%s d4=%s d3=%s close=%s" ones xs1 x (xo errs2) (xo errs3)
+              (match e4 with None -> "*" | Some _ -> x) x
               (match spec_close_code e with Some c -> string_of_n c | None -> "-")) in
       m ^ " | " ^ s
   | _ -> "driver-error unknown-case"
